@@ -151,7 +151,7 @@ def panicked(err):
 
 # ---- C17: single invocations -------------------------------------------------------------------------
 
-PRIOR = ["absent", "same", "stale", "garbage", "noncompiling", "dir"]
+PRIOR = ["absent", "same", "stale", "garbage", "noncompiling", "longstale", "dir"]
 
 
 def c17_case(rng, ws, case_no):
@@ -195,7 +195,8 @@ def c17_case(rng, ws, case_no):
         pk = p["dir"]
         content = {"absent": None, "same": ref if ref else None,
                    "stale": ws.reference("A", (p["k"] + 1) % 4 + 4, p["dir"], ()),
-                   "garbage": GARBAGE % pk, "noncompiling": NONCOMPILING % pk, "dir": "<dir>"}[prior]
+                   "garbage": GARBAGE % pk, "noncompiling": NONCOMPILING % pk, "dir": "<dir>",
+                   "longstale": (ws.reference("E", 0, p["dir"], ()) or "") + ("\n// stale tail\nfunc staleHelper%d() {}\n" % case_no) * 4}[prior]
         p["prior"] = prior
         p["fname"] = prefix + "wire_gen.go"
         for f in ("wire_gen.go", "p_wire_gen.go"):
@@ -337,12 +338,13 @@ def run_c18(rep, tier):
         loads = []
         for (k, n), ref in zip(VARIANTS, refs):
             loads.append([1, 1, 1, 1 if expected_errs(k) else 0, ws.cid(ref) if has_output(k) else 0])
-        clobbers = [refs[0], refs[1], refs[2], GARBAGE % d, NONCOMPILING % d]
+        long_stale = (refs[2] or "") + "\n// a longer, stale tail\nfunc staleHelper() int { return 42 }\n" * 3
+        clobbers = [refs[0], refs[1], refs[2], GARBAGE % d, NONCOMPILING % d, long_stale, (GARBAGE % d) * 6]
         reqs, meta = [], []
         for h in range(nh):
             v = rng.randrange(len(VARIANTS))
             ws.set_variant(d, *VARIANTS[v])
-            init = rng.choice([None, refs[0], refs[2], GARBAGE % d])
+            init = rng.choice([None, refs[0], refs[2], GARBAGE % d, long_stale])
             ws.write(d, init)
             ops, exits, enc = [], [], []
             cur = v
